@@ -43,6 +43,7 @@ def run_property(prop, tier='quick', repo=None, quiet=False, evidence=True,
             print(s)
 
     col = Collector(prop)
+    col.scope = dict(PROPS[prop].get('scope', {}))
     try:
         if repo is None:
             repo = Repo()
